@@ -161,6 +161,17 @@ def run(ctx):
         uses_kw = upd.node.args.kwarg is not None and \
             upd.node.args.kwarg.arg in {n.id for n in ast.walk(upd.node)
                                         if isinstance(n, ast.Name)}
+        merged = [c for c in ast.walk(upd.node) if isinstance(c, ast.Call)
+                  and isinstance(c.func, ast.Name) and c.func.id in ("dict", "OrderedDict")
+                  and (any(isinstance(a, ast.Starred) for a in c.args)
+                       or any(k.arg is None for k in c.keywords) or len(c.args) > 0)]
+        ctx.check(not merged, "C17/OVERRIDES", "CaselessDict.update no case-sensitive merge",
+                  f"update() first merges its arguments with `{dump(merged[0])[:50] if merged else ''}`: "
+                  f"a case-sensitive intermediate collapses repeated spellings before "
+                  f"the keys are folded, so 'last entry wins per upper-cased name' fails",
+                  upd.loc(merged[0]) if merged else upd.loc(),
+                  witness="update([('role',1),('ROLE',2),('role',3)]) -> ROLE=2",
+                  detail="pairs are stored in argument order")
         ctx.check(ok and uses_args and uses_kw, "C17/OVERRIDES",
                   "CaselessDict.update",
                   "update must store every (key, value) of every positional "
